@@ -85,8 +85,12 @@ func refTagName(re *regexp.Regexp, key string) string {
 	if m == nil {
 		return ""
 	}
-	if i := re.SubexpIndex("tag"); i >= 0 && m[2*i] >= 0 && m[2*i+1] > m[2*i] {
-		return key[m[2*i]:m[2*i+1]]
+	// "the regex's capture group named 'tag' when it matched non-empty text": a regex may carry the
+	// name on several alternatives; whichever of them captured text gives the name
+	for i, n := range re.SubexpNames() {
+		if n == "tag" && m[2*i] >= 0 && m[2*i+1] > m[2*i] {
+			return key[m[2*i]:m[2*i+1]]
+		}
 	}
 	return key
 }
@@ -94,7 +98,7 @@ func refTagName(re *regexp.Regexp, key string) string {
 func (c13) Run(e *Env) {
 	e.ProbeDecl("lookup-hit", "lookup-miss", "ip-reused-by-other-pod", "phase-only-update", "deletion-timestamp-update", "label-edit", "annotation-edit", "ip-changed", "ip-unset", "delete", "lookup-before-pod-exists",
 		"host-network-pod", "tag-group-empty-falls-back-to-key", "regex-without-group", "via-ipsink", "racing-lookup", "partition", "tombstone-delete-after-relist", "changed-while-partitioned", "key-swapped-in-one-update", "two-changes-in-one-race-window", "informer-resync")
-	labelRes := []string{"", "^app$", "^(?:app|team/(?P<tag>.+))$", "^tier(?P<tag>.*)$", "^nomatch$", "^team/(.+)$"}
+	labelRes := []string{"", "^app$", "^(?:app|team/(?P<tag>.+))$", "^tier(?P<tag>.*)$", "^nomatch$", "^team/(.+)$", "^(?:tier-(?P<tag>.+)|team/(?P<tag>.+)|note)$"}
 	annRes := []string{k8s.DefaultAnnotationTagRegex, "", "^gostatsd\\.atlassian\\.com/(?P<tag>.*)$", "^note$", "^(?P<tag>x)?note$"}
 	lr, ar := labelRes[e.Draw(len(labelRes))], annRes[e.Draw(len(annRes))]
 	var labelRe, annRe *regexp.Regexp
